@@ -19,6 +19,19 @@ def opCNBuild (j : Json) : Except String Json := do
   let I ← jCNInst j
   pure (ilpJ (mapIlp CVar.name I.build))
 
+/-- spec level (Props/C03Spec): the documented score `specCN` of every yielded selection of slots - by
+`cn_optimum_is_spec_min` the objective of an optimum with that selection -/
+def opCNSpec (j : Json) : Except String Json := do
+  let I ← jCNInst j
+  let ys ← jList (jList (jPair jStr jInt)) (← field j "selections")
+  let rowsNodup := (I.rows.map (·.1)).eraseDups.length == I.rows.length
+  pure (objJ [("rows_nodup", boolJ rowsNodup),
+              ("spec", listJ (fun (act : List (String × Int)) =>
+                  let σ : CVar → Rat := fun v => match v with
+                    | .S n i => if act.contains (n, i) then 1 else 0
+                    | _ => 0
+                  ratJ (I.specCN σ)) ys)])
+
 def opCNFilter (j : Json) : Except String Json := do
   let g ← jGeneView (← field j "gene")
   let p ← jProfile (← field j "profile")
